@@ -44,6 +44,7 @@ def setup(ctx):
     ctx.require("monitor", "l2_bounded_pipe", 20)
     ctx.require("monitor", "l2_other_success_statuses", 20)
     ctx.require("monitor", "l2_empty_meta", 10)
+    ctx.require("monitor", "l2_ipv6_peers", 40)
     ctx.require("monitor", "l3_resumed_sessions", 8)
     ctx.require("monitor", "l3_client_varieties", 18)
     ctx.require("monitor", "l2_request_in_two_records", 15)
@@ -207,7 +208,11 @@ def run_l2(ctx):
 
                 loop = new_loop()
                 try:
-                    bench = tlsbench.Sandwich(loop, lambda: GeminiServerProtocol(handler), backend=backend)
+                    # the client's address comes in the shapes the socket layer reports: (host, port) for IPv4, a 4-tuple for IPv6
+                    peername = (("192.0.2.7", 40001), ("2001:db8::7", 40001, 0, 0), ("198.51.100.9", 1), ("fe80::1%eth0", 40001, 0, 3))[idx % 4]
+                    if len(peername) == 4:
+                        ctx.count("monitor", "l2_ipv6_peers")
+                    bench = tlsbench.Sandwich(loop, lambda: GeminiServerProtocol(handler), backend=backend, peername=peername)
                     cuts_kind = rng.choice(["none", "none", "small", "one"])
                     if cuts_kind == "small":
                         bench.cipher_cuts = lambda m: list(range(7, m, 7))
@@ -222,7 +227,7 @@ def run_l2(ctx):
                     if half_close:
                         # the client shuts its side down right after the request (request and close_notify arrive
                         # in one read) and keeps reading: the whole response is still owed to it
-                        bench = tlsbench.Sandwich(loop, lambda: GeminiServerProtocol(handler), backend=backend, capacity=65536 if (idx // 4) % 2 == 0 else None)
+                        bench = tlsbench.Sandwich(loop, lambda: GeminiServerProtocol(handler), backend=backend, capacity=65536 if (idx // 4) % 2 == 0 else None, peername=peername)
                         coalesce = False
                         if not bench.handshake():
                             ctx.inconclusive_because(f"L2 handshake failed: {bench.error}")
